@@ -141,7 +141,39 @@ func runChanFreeCase(c *ChanFreeCase) *ChanFreeResult {
 		}(wr)
 	}
 	close(start)
-	wg.Wait()
+	done := make(chan struct{})
+	go func() { wg.Wait(); close(done) }()
+	quiet := 0
+wait:
+	for {
+		select {
+		case <-done:
+			break wait
+		case <-time.After(20 * time.Millisecond):
+			// writers that all sit parked while nothing else can move will never finish: the queue is full and nobody
+			// is left to drain it (or their wake-up was lost)
+			if sched.AllQuiet() {
+				quiet++
+			} else {
+				quiet = 0
+			}
+			if quiet >= 5 {
+				vs := netty.VerifState(ch)
+				msg := fmt.Sprintf("writers are parked for ever on an open channel: queue length %d, sender role %d, nothing else can move", vs.QLen, vs.Running)
+				fail("C02", "stress-stuck", msg)
+				fail("C18", "stress-stuck", msg)
+				fail("C01", "stress-stuck", msg)
+				// let the goroutines go before leaving the case
+				go ch.Close(nil)
+				select {
+				case <-done:
+				case <-time.After(5 * time.Second):
+				}
+				res.Actions["stress-records"] = 0
+				return res
+			}
+		}
+	}
 	if !sched.WaitQuiet(30 * time.Second) {
 		res.HarnessErr = "the channel did not come to rest within 30s"
 		return res
